@@ -689,7 +689,7 @@ func c06Rebuild(r *core.Run, rec map[*ssa.Function]bool, idx []*ssa.Function) {
 					firstCommit = in
 				}
 			}
-			if callee != nil && p.IsProdFunc(callee) && strings.Contains(strings.ToLower(callee.Name()), "iter") && iter == nil {
+			if isLiveIterHelper(p, c) && iter == nil {
 				iter = in
 			}
 			if strings.HasSuffix(core.CalleeName(c), ".NewIter") && iter == nil {
